@@ -1,14 +1,14 @@
 #!/bin/bash
-# usage: tools/revert_trial.sh <fix-commit> <check-id>...
+# usage: tools/revert_trial.sh <fix-commit>[,<older-fix-commit>...] <check-id>...   (several commits: newest first, for fixes that touch the same lines)
 # Reverts one "fix:" commit on a scratch copy of /repo's HEAD and runs the quick checks against it
 # (each reverted fix is a mutant for its property: the check must report the defect again).
 C=$1; shift
-R=/tmp/mutrepo/revert-$C; rm -rf "$R"; mkdir -p "$R"
+R=/tmp/mutrepo/revert-${C//,/_}; rm -rf "$R"; mkdir -p "$R"
 git -C /repo archive HEAD | tar -x -C "$R" || exit 2
-(cd "$R" && git init -q . && git -C /repo show "$C" | git apply -R) || { echo "revert of $C does not apply"; rm -rf "$R"; exit 2; }
+(cd "$R" && git init -q . && for c in ${C//,/ }; do git -C /repo show "$c" | git apply -R || exit 1; done) || { echo "revert of $C does not apply"; rm -rf "$R"; exit 2; }
 (cd "$R" && GOFLAGS=-mod=mod GOPROXY=off GOSUMDB=off GOTOOLCHAIN=local go build ./... ) || { echo "revert of $C does not build"; rm -rf "$R"; exit 2; }
 trap 'rm -rf "$R"' EXIT
 for K in "$@"; do
-  out=$(cd /verif && VERIF_REPO=$R VERIF_OUT_DIR=/tmp/mutconf/out/revert-$C ./check "$K" quick 2>&1); rc=$?
-  echo "REVERT $C ($(git -C /repo log --format=%s -1 $C | cut -c1-60)) check $K rc=$rc violation_lines=$(echo "$out" | grep -c '^VIOLATION')"
+  out=$(cd /verif && VERIF_REPO=$R VERIF_OUT_DIR=/tmp/mutconf/out/revert-${C//,/_} ./check "$K" quick 2>&1); rc=$?
+  echo "REVERT $C ($(git -C /repo log --format=%s -1 ${C##*,} | cut -c1-60)) check $K rc=$rc violation_lines=$(echo "$out" | grep -c '^VIOLATION')"
 done
